@@ -215,6 +215,14 @@ def run(ctx, chk, tier):
             b = b.args[0]
         shape_ok = isinstance(b, App) and b.fn in ("empty", "zeros") and same(b.args[0], Tup([Const(2), NN]))
         r0, r1 = rows.get(0), rows.get(1)
+        # the same two rows stacked along a new FIRST axis: np.stack([joint % 2, joint // 2]) (an integer cast of 0/1 values changes nothing)
+        sv = v
+        while isinstance(sv, App) and sv.fn == "fresh" and sv.kwd("dtype") in (Const("int"), None) and sv.args:
+            sv = sv.args[0]
+        if isinstance(sv, App) and sv.fn in ("stack", "vstack") and sv.args and isinstance(sv.args[0], Tup) and len(sv.args[0].items) == 2 \
+                and (sv.fn == "vstack" or sv.kwd("axis") in (None, Const(0))):
+            r0, r1 = sv.args[0].items
+            shape_ok = True     # two length-n rows stacked on axis 0: shape (2, n)
         dec_ok = (isinstance(r0, App) and r0.fn == "mod" and r0.args[1] == Const(2) and isinstance(r1, App) and r1.fn == "floordiv" and r1.args[1] == Const(2)
                   and r0.args[0] == r1.args[0])
         if not (shape_ok and dec_ok) and any(isinstance(a_, App) and a_.fn.startswith("ext:") for a_ in atoms_of(v)):
